@@ -9,6 +9,7 @@ import (
 	"io"
 	"os"
 	"path/filepath"
+	"runtime"
 	"sync"
 	"time"
 
@@ -44,7 +45,11 @@ type Node struct {
 	done   chan struct{}
 	mu     sync.Mutex
 	exited bool
+	fatal  bool // the daemon called log.Fatal (crash-stop)
 }
+
+// Fataled reports whether the daemon called log.Fatal since start.
+func (n *Node) Fataled() bool { n.mu.Lock(); defer n.mu.Unlock(); return n.fatal }
 
 // DBFile is the actual database file name.
 func (c NodeConfig) DBFile() string { return c.DBPath + ".v4" }
@@ -108,6 +113,14 @@ func StartNode(cfg NodeConfig, chain *forge.Chain) (*Node, error) {
 		return nil, ErrRefused{err}
 	}
 	n := &Node{Cfg: cfg, P: p, ctx: ctx, cancel: cancel, done: make(chan struct{})}
+	// log.Fatal would take the whole lab process down; turn it into an observation: the calling
+	// goroutine (the sync loop) ends, which is what a crash-stop of the daemon amounts to.
+	log.StandardLogger().ExitFunc = func(int) {
+		n.mu.Lock()
+		n.fatal = true
+		n.mu.Unlock()
+		runtime.Goexit()
+	}
 	n.Fake = NewFake(chain)
 	p.FactomClient.Factomd.Transport = n.Fake
 	p.FactomClient.Factomd.Timeout = 30 * time.Second
@@ -136,10 +149,12 @@ func StartNode(cfg NodeConfig, chain *forge.Chain) (*Node, error) {
 func (n *Node) Run() {
 	go func() {
 		defer close(n.done)
+		defer func() {
+			n.mu.Lock()
+			n.exited = true
+			n.mu.Unlock()
+		}()
 		n.P.DBlockSync(n.ctx)
-		n.mu.Lock()
-		n.exited = true
-		n.mu.Unlock()
 	}()
 }
 
@@ -178,6 +193,9 @@ func ReadSynced(db *sql.DB) (uint32, error) {
 
 // ErrWedged: the daemon asked for the same directory block more than the allowed number of times without progress.
 var ErrWedged = errors.New("wedged: same height requested repeatedly without progress")
+
+// ErrFatal: the daemon called log.Fatal.
+var ErrFatal = errors.New("daemon called log.Fatal (crash-stop)")
 
 // ErrWatchdog: generous wall-clock limit hit (inconclusive, never a violation by itself).
 var ErrWatchdog = errors.New("watchdog: wall-clock limit reached")
@@ -226,6 +244,9 @@ func (n *Node) WaitSynced(target uint32, o WaitOpts) error {
 		ex := n.exited
 		n.mu.Unlock()
 		if ex {
+			if n.Fataled() {
+				return ErrFatal
+			}
 			return errors.New("sync loop exited")
 		}
 		if time.Now().After(deadline) {
